@@ -132,7 +132,8 @@ def handle : List String → String
     -- a real region client with cellblock compression: what was decompressed and handed to the
     -- caller is what the server sent, and stays so while later requests and responses go by
     if gets = "gets=0" then s!"DIFF harness: no Get was answered ({failed})"
-    else if failed ≠ "failed=0" then s!"DIFF harness: alias scenario {failed}"
+    else if failed ≠ "failed=0" then
+      s!"SPEC key=valid-response-not-delivered-{codec} {failed} (a request on a healthy connection to a conforming server ended with an error or without its cell)"
     else if wrong ≠ "wrong=0" then s!"SPEC key=wrong-data-delivered-{codec} {wrong} of {gets} results differ from what the server compressed"
     else if changed ≠ "changed=0" then s!"SPEC key=delivered-data-changed-later-{codec} {changed} results changed after later requests ({puts})"
     else s!"OK tags=alias,{codec}"
